@@ -277,14 +277,18 @@ class AsyncIOClient(ABC):
         await self._update_state(State.CLOSED)
         if self.writer:
             self.writer.close()
-        # Cancel the receive loop task if it exists
-        if self._receive_task and not self._receive_task.done():
-            self._receive_task.cancel()
-            await asyncio.sleep(0.01)  # Allow cancellation to propagate
-        # Cancel the process queue task if it exists
-        if self._process_queue_task and not self._process_queue_task.done():
-            self._process_queue_task.cancel()
-            await asyncio.sleep(0.01)  # Allow cancellation to propagate
+        try:
+            # Cancel the receive loop task if it exists
+            if self._receive_task and not self._receive_task.done():
+                self._receive_task.cancel()
+                await asyncio.sleep(0.01)  # Allow cancellation to propagate
+        finally:
+            # Cancel the process queue task if it exists. This must also happen when the wait above is
+            # cancelled: close() called from the receive loop's own task (e.g. from the status callback that
+            # reports a read error) cancels itself there, and the queue consumer has to be stopped all the same.
+            if self._process_queue_task and not self._process_queue_task.done():
+                self._process_queue_task.cancel()
+                await asyncio.sleep(0.01)  # Allow cancellation to propagate
         self.logger.info("Connection closed.")
 
     async def _process_queue(self):
